@@ -293,4 +293,20 @@ FINDINGS (Go code vs. the property; the model follows the property; op lines for
      y² = x³ + 4: SetBytes with subgroup check accepts a point outside the prime-order subgroup.
 -/
 
+/-! ## decode histories on re-used destinations -/
+
+/-- Decoding into destinations that already hold values (the caller's slices / points / vectors from earlier `Decode`
+calls, `prev`) gives exactly what decoding the last stream into fresh destinations gives: no earlier content survives,
+whatever the earlier streams were and whether they failed or not. (By-value model; the Go decoder re-uses the
+caller's slice when the lengths agree — the correspondence ops `sdec … A>B` and `dec … <pt>><hex>` test that every
+item is overwritten, including infinity / zero items.) -/
+theorem C07_history_independent (E : Env α β) (sub : Bool) (ts : List Ty)
+    (prev : List (Val α β) × Option Err × Nat) (earlier : List (List UInt8)) (b : List UInt8) :
+    decodeHistFrom E sub ts prev (earlier ++ [b]) = decodeSeq E sub ts b := by
+  induction earlier generalizing prev with
+  | nil => simp [decodeHistFrom]
+  | cons a rest ih => simpa [decodeHistFrom] using ih _
+
+example : (decodeHist toyEnv true [.g1s] [[0, 0, 0, 1, 0x81], [0, 0, 0, 1, 0x40]]).1.length = 1 := by rfl
+
 end GV.PointCodec
